@@ -967,7 +967,7 @@ class Process:
         ret = []
         if not recursive:
             for pid, ppid in ppid_map.items():
-                if ppid == self.pid:
+                if ppid == self.pid and pid != self.pid:
                     try:
                         child = Process(pid)
                         # if child happens to be older than its parent
@@ -994,6 +994,10 @@ class Process:
                     continue
                 seen.add(pid)
                 for child_pid in reverse_ppid_map[pid]:
+                    if child_pid in seen:
+                        # Cycle in the process "tree" (see above): do
+                        # not return self among its own descendants.
+                        continue
                     try:
                         child = Process(child_pid)
                         # if child happens to be older than its parent
